@@ -23,7 +23,7 @@ ASSUMPTIONS = [
     "a crop bound is ambiguous when the exact band-edge delay is within float-evaluation error of a whole sample: such cases are skipped",
 ]
 
-REFSEL = ["none", "center", "lo", "hi", "above", "below", "inside"]
+REFSEL = ["none", "center", "lo", "hi", "above", "below", "inside", "inf"]  # "inf": delays relative to infinite frequency (ref_freq = inf Hz)
 
 
 def band(spec):
@@ -33,6 +33,8 @@ def band(spec):
 
 def ref_of(spec, sel):
     lo, hi, cf = band(spec)
+    if sel == "inf":
+        return O.INF
     r = {"none": None, "center": cf, "lo": lo, "hi": hi, "above": hi * F(3, 2), "below": lo * F(2, 3), "inside": lo + (hi - lo) * F(1, 3)}[sel]
     return None if r is None else F(float(r))  # what the library receives is the float
 
@@ -132,10 +134,10 @@ def run_chirp(case, stt):
     f0 = labels[0]
     dt_q = (1 / z.sample_rate).to(O.unit(case["dt_unit"]))
     fc_q = (float(f0 / O.FREQ_UNITS[case["f_unit"]])) * O.unit(case["f_unit"])
-    fr_q = (float(fr / O.FREQ_UNITS[case["f_unit"]])) * O.unit(case["f_unit"])
+    fr_q = (float("inf") if fr is O.INF else float(fr / O.FREQ_UNITS[case["f_unit"]])) * O.unit(case["f_unit"])
     rate_seen = 1 / (F(float(dt_q.value)) * O.TIME_UNITS[case["dt_unit"]])
     fc_seen = F(float(fc_q.value)) * O.FREQ_UNITS[case["f_unit"]]
-    fr_seen = F(float(fr_q.value)) * O.FREQ_UNITS[case["f_unit"]]
+    fr_seen = O.INF if fr is O.INF else F(float(fr_q.value)) * O.FREQ_UNITS[case["f_unit"]]
     with lib("chirp_function"):
         h = D.chirp_function(N, dt_q, fc_q, fr_q)
         hd = D.chirp_function(N, dt_q, fc_q, fr_q, use_dask=True)
@@ -182,7 +184,23 @@ def cdd_case(draw):
         want = draw(st.one_of(st.floats(0.0, 1.0), st.floats(0.0, 0.3), st.floats(0.9, 2.2))) * spec["n"]
         cand = float(F(want) / d1)
         dmv = cap_dm(spec, math.copysign(cand, dmv), sel)
-    return {"sig": spec, "dm": dmv, "ref": sel}
+    return {"sig": spec, "dm": dmv, "ref": sel, "dm_unit": draw(st.sampled_from(["none", "none", "none", "kpc / cm3", "pc / m3", "1 / cm2"]))}
+
+
+DM_UNIT_SCALE = {"pc / cm3": F(1), "kpc / cm3": F(1000), "pc / m3": F(1, 10**6)}
+
+
+def mk_dm(pb, value, unit_name):
+    """-> (DispersionMeasure object, exact value in pc/cm3): the number as given, or the same measure spelled in an equivalent unit"""
+    if unit_name in (None, "none"):
+        return pb.DM(value), F(value)
+    if unit_name == "1 / cm2":
+        qq = (value * u.pc / u.cm**3).to(u.cm**-2)  # a column density; its exact value back in pc/cm3:
+        D = pb.DM(qq)
+        return D, F(float(D.to_value(u.pc / u.cm**3)))
+    sc = DM_UNIT_SCALE[unit_name]
+    val = float(F(value) / sc)
+    return pb.DM(val * u.Unit(unit_name)), F(val) * sc
 
 
 def reference_fft(x, use_ld):
@@ -213,8 +231,9 @@ def run_cdd(case, stt):
     N, rate = spec["n"], O.fq(spec["sr"])
     lo, hi, cf = band(spec)
     fr = ref_of(spec, case["ref"]) or cf
-    dm = F(case["dm"])
-    D = pb.DM(case["dm"])
+    D, dm = mk_dm(pb, case["dm"], case.get("dm_unit"))
+    if case.get("dm_unit", "none") != "none":
+        stt.label("dm_unit_" + case["dm_unit"])
     z = G.build(spec)
     x = z.data.copy()
     kw = {} if case["ref"] == "none" else {"ref_freq": float(fr) * u.Hz}
@@ -368,7 +387,7 @@ def hist_case(draw):
         spec["sshape"][0] -= 1  # even channel counts: alignment matters (one channel fewer keeps the band positive)
     dmv, sel = draw(dm_and_ref(spec))
     steps = [draw(st.sampled_from(["align", "align", "dm", "ref", "data", "cf_shift", "same", "dtype", "start", "rate"])) for _ in range(draw(st.integers(1, 4)))]
-    return {"sig": spec, "dm": dmv, "ref": sel, "steps": steps, "pick": draw(st.integers(0, 10**6)), "one_object": draw(st.booleans())}
+    return {"sig": spec, "dm": dmv, "ref": sel, "steps": steps, "pick": draw(st.integers(0, 10**6)), "one_object": draw(st.sampled_from([False, True, "refusals"]))}
 
 
 def run_hist(case, stt):
